@@ -5024,7 +5024,7 @@ class Entity(object, metaclass=EntityMeta):
             undo_list = []
             objects_to_save = cache.objects_to_save
             save_pos = obj._save_pos_
-            cur_status, cur_save_pos = status, save_pos  # re-read below: clearing own collections may change them
+            cur_status, cur_save_pos = status, save_pos  # re-read below
 
             def undo_func():
                 if obj._status_ == 'marked_to_delete':
@@ -5042,7 +5042,6 @@ class Entity(object, metaclass=EntityMeta):
                 obj._status_ = cur_status
                 for cache_index, old_key in undo_list: cache_index[old_key] = obj
 
-            undo_funcs.append(undo_func)
             try:
                 for attr in obj._attrs_:
                     if not attr.is_collection: continue
@@ -5077,6 +5076,16 @@ class Entity(object, metaclass=EntityMeta):
                             reverse.reverse_remove((val,), obj, undo_funcs)
                         else: throw(NotImplementedError)
 
+                if obj._status_ in del_statuses: return  # a nested _delete_ of this object (cascade cycle) already finished
+
+                # the object may be a member of its own collections (self-reference): clearing them above can have
+                # changed its status to 'modified' and put it into objects_to_save, so look at the current values.
+                # The undo function is registered only now: it has to run before the undo functions of the calls
+                # above, which expect the status and the save queue as they left them
+                cur_status = obj._status_
+                cur_save_pos = obj._save_pos_
+                undo_funcs.append(undo_func)
+
                 cache_indexes = cache.indexes
                 for attr in obj._simple_keys_:
                     val = get_val(attr)
@@ -5094,10 +5103,6 @@ class Entity(object, metaclass=EntityMeta):
                     assert obj2 is obj
                     undo_list.append((cache_index, vals))
 
-                # the object may be a member of its own collections (self-reference): clearing them above can have
-                # changed its status to 'modified' and put it into objects_to_save, so look at the current values
-                cur_status = obj._status_
-                cur_save_pos = obj._save_pos_
                 if cur_status == 'created':
                     assert cur_save_pos is not None
                     objects_to_save[cur_save_pos] = None
